@@ -1,2 +1,95 @@
-(* C02 -- placeholder *)
-From Sylt Require Import Types.Tc.
+(* C02 -- Type soundness: accepted programs never hit dynamic type errors.
+   Only pinned statements, `exact`, Examples / refutation witnesses by vm_compute, and Print Assumptions. *)
+From Coq Require Import String List NArith ZArith PArith Bool FMapPositive.
+From Sylt Require Import Syntax.Resolved Types.TyGraph Types.Tc Types.TcInv Types.SoundE0.
+Import ListNotations.
+Local Open Scope string_scope.
+
+(* C02_E0.  Soundness of the checker on the fragment E0: closed expressions over int / float / str / bool
+   literals, + - *, < > <= >=, == != <=>, and / or / not, unary minus and if-expressions (no division).  If the
+   type checker accepts such an expression - in any well-formed state of the type graph, any TypeCtx, with
+   any fuel - the tagged evaluator (None = an operation applied to a value of the wrong tag) returns a
+   value, and the tag of that value is the base type at the head of the class the checker assigned to the
+   expression.  The evaluator is parameterised by the interpretation of float arithmetic and of float /
+   string comparisons; the theorem holds for every interpretation. *)
+Theorem C02_E0 : forall farith fneg fcmp of_int scmp kinds g f ctx sp (e : e0) s r s',
+  in_fragment e = true -> wf s ->
+  r_expr (afix kinds (gfix g) f) (to_expr sp e) ctx s = Ok (r, s') ->
+  exists v t, eval farith fneg fcmp of_int scmp e = Some v /\ tag v = t /\ head s' (snd r) = Some (bty_head t).
+Proof. exact SoundE0.C02_E0. Qed.
+
+(* its two halves *)
+Theorem C02_accepted_simply_typed : forall kinds g sp e,
+  in_fragment e = true -> sound_expr kinds g (to_expr sp e) (ty0 e).
+Proof. exact SoundE0.accepted_simply_typed. Qed.
+
+Theorem C02_simply_typed_sound : forall farith fneg fcmp of_int scmp e t,
+  ty0 e = Some t -> exists v, eval farith fneg fcmp of_int scmp e = Some v /\ tag v = t.
+Proof. exact SoundE0.simply_typed_sound. Qed.
+
+(* The full statement - every accepted program without externals runs without a dynamic type error - is
+   not proved, and it is FALSE of the model as it is of the code: the two programs below are accepted by the
+   type checker (here: by the model, on the real compiler's own resolved statements) and fail at run time with
+   a dynamic type error when the real emitted Lua is run (replayed by the check: known findings
+   C02-fn-param-reinstantiated, C02-type-name-as-value). *)
+Definition C02_full_statement := SoundE0.C02_full_statement.
+
+(*
+     print: fn *X -> void : external
+     apply :: fn g: fn *A -> *A do
+         print(g(1))
+         print(g("a"))
+     end
+     start :: fn do
+         apply(fn x: int -> int do x + 1 end)
+     end
+*)
+Definition reinstantiated_param_program : resolved :=
+(mkResolved
+  [(mkVar 0%N "print" (mkSpan 0 1 1 1 6) true Const); (mkVar 1%N "apply" (mkSpan 0 2 2 1 6) true Const); (mkVar 2%N "start" (mkSpan 0 6 6 1 6) true Const); (mkVar 3%N "== STACK BEGIN ""apply"" ==" (mkSpan 0 2 2 1 6) false Const); (mkVar 4%N "g" (mkSpan 0 2 2 13 14) false Const); (mkVar 5%N "== STACK BEGIN ""start"" ==" (mkSpan 0 6 6 1 6) false Const); (mkVar 6%N "x" (mkSpan 0 7 7 14 15) false Const)]
+  [(SExternalDefinition "print" 0%N Const (TFn [] [(TGeneric "X" (mkSpan 0 1 1 11 12))] (TResolved BVoid (mkSpan 0 1 1 17 21)) false (mkSpan 0 1 1 8 10)) (mkSpan 0 1 1 1 6)); (SDefinition "apply" 1%N Const (TImplied (mkSpan 0 5 5 4 5)) (EFunction "lambda" [("g", 4%N, (mkSpan 0 2 2 13 14), (TFn [] [(TGeneric "A" (mkSpan 0 2 2 19 20))] (TGeneric "A" (mkSpan 0 2 2 25 26)) false (mkSpan 0 2 2 16 18)))] (TResolved BVoid (mkSpan 0 2 2 28 30)) [(SStatementExpression (ECall (ERead 0%N (mkSpan 0 3 3 5 10)) [(ECall (ERead 4%N (mkSpan 0 3 3 11 12)) [(EInt (1)%Z (mkSpan 0 3 3 13 14))] (mkSpan 0 3 3 12 13))] (mkSpan 0 3 3 10 11)) (mkSpan 0 3 3 5 10)); (SStatementExpression (ECall (ERead 0%N (mkSpan 0 4 4 5 10)) [(ECall (ERead 4%N (mkSpan 0 4 4 11 12)) [(EStr "a" (mkSpan 0 4 4 13 16))] (mkSpan 0 4 4 12 13))] (mkSpan 0 4 4 10 11)) (mkSpan 0 4 4 5 10))] false (mkSpan 0 2 2 10 12)) (mkSpan 0 2 2 1 6)); (SDefinition "start" 2%N Const (TImplied (mkSpan 0 8 8 4 5)) (EFunction "lambda" [] (TResolved BVoid (mkSpan 0 6 6 13 15)) [(SStatementExpression (ECall (ERead 1%N (mkSpan 0 7 7 5 10)) [(EFunction "lambda" [("x", 6%N, (mkSpan 0 7 7 14 15), (TResolved BInt (mkSpan 0 7 7 17 20)))] (TResolved BInt (mkSpan 0 7 7 24 27)) [(SStatementExpression (EBinOp Add (ERead 6%N (mkSpan 0 7 7 31 32)) (EInt (1)%Z (mkSpan 0 7 7 35 36)) (mkSpan 0 7 7 33 34)) (mkSpan 0 7 7 31 32))] false (mkSpan 0 7 7 11 13))] (mkSpan 0 7 7 10 11)) (mkSpan 0 7 7 5 10))] false (mkSpan 0 6 6 10 12)) (mkSpan 0 6 6 1 6))]).
+
+Theorem C02_refuted_reinstantiated_param : exists fuel, typecheck fuel reinstantiated_param_program = Ok tt.
+Proof. exists 80. vm_compute. reflexivity. Qed.
+
+(*
+     A :: blob { a: int }
+     start :: fn do
+         A.a = 3
+     end
+*)
+Definition type_name_as_value_program : resolved :=
+(mkResolved
+  [(mkVar 0%N "A" (mkSpan 0 1 1 1 2) true Const); (mkVar 1%N "start" (mkSpan 0 2 2 1 6) true Const); (mkVar 2%N "== STACK BEGIN ""start"" ==" (mkSpan 0 2 2 1 6) false Const)]
+  [(SBlob "A" 0%N (mkSpan 0 1 1 1 2) [] [("a", ((mkSpan 0 1 1 13 14), (TResolved BInt (mkSpan 0 1 1 16 19))))] false); (SDefinition "start" 1%N Const (TImplied (mkSpan 0 4 4 4 5)) (EFunction "lambda" [] (TResolved BVoid (mkSpan 0 2 2 13 15)) [(SAssignment Nop (EBlobAccess (ERead 0%N (mkSpan 0 3 3 5 6)) "a" (mkSpan 0 3 3 7 8)) (EInt (3)%Z (mkSpan 0 3 3 11 12)) (mkSpan 0 3 3 5 6))] false (mkSpan 0 2 2 10 12)) (mkSpan 0 2 2 1 6))]).
+
+Theorem C02_refuted_type_name_as_value : exists fuel, typecheck fuel type_name_as_value_program = Ok tt.
+Proof. exists 80. vm_compute. reflexivity. Qed.
+
+(* ---- non-vacuity of C02_E0: (1 + 2 < 4) and not false, accepted, evaluates to a bool *)
+Definition sp0 : span := mkSpan 0 1 1 1 2.
+Definition ex0 : e0 := Bin0 And (Bin0 Less (Bin0 Add (I0 1) (I0 2)) (I0 4)) (Un0 Not (B0 false)).
+
+Example C02_example_in_fragment : in_fragment ex0 = true.
+Proof. reflexivity. Qed.
+
+Example C02_example_accepted :
+  match r_expr (afix (PositiveMap.empty varkind) (gfix 20) 20) (to_expr sp0 ex0) ctx_new empty_st with
+  | Ok _ => true | _ => false end = true.
+Proof. vm_compute. reflexivity. Qed.
+
+Example C02_example_evaluates :
+  eval (fun _ a _ => a) (fun a => a) (fun _ _ _ => true) (fun _ => "") (fun _ _ _ => true) ex0 = Some (VBool true).
+Proof. vm_compute. reflexivity. Qed.
+
+(* and an ill-typed one is rejected: 1 + "a" *)
+Example C02_example_rejected :
+  match r_expr (afix (PositiveMap.empty varkind) (gfix 20) 20) (to_expr sp0 (Bin0 Add (I0 1) (S0 "a"))) ctx_new empty_st with
+  | Err e _ => e_kind e | _ => KExotic end = KBinOp.
+Proof. vm_compute. reflexivity. Qed.
+
+Print Assumptions C02_E0.
+Print Assumptions C02_accepted_simply_typed.
+Print Assumptions C02_simply_typed_sound.
+Print Assumptions C02_refuted_reinstantiated_param.
+Print Assumptions C02_refuted_type_name_as_value.
